@@ -1039,3 +1039,97 @@ func (a *Analysis) EOFLeavesOpen() []EOFOpen {
 	}
 	return out
 }
+
+// ---------- the opening parenthesis is transparent ----------
+
+// OpenDivergence describes a reachable configuration in which "(" followed by a line end does not leave the scanner
+// where the line end alone leaves it.
+type OpenDivergence struct {
+	State, Stack    string
+	Plain, Explicit string
+	Trace           string
+}
+
+// ContextOpenDivergences: in every explored configuration in which the byte "(" is announced as a ContextOpen, the
+// scanner must afterwards read the input exactly as it would have without the parenthesis: what follows "(" LF is
+// compared, on every byte sequence of length <= lookahead, with what follows LF alone. Returns also the number of
+// configurations compared.
+func (a *Analysis) ContextOpenDivergences(lookahead int) (out []OpenDivergence, compared int) {
+	ex := a.ex
+	saveFinds := ex.finds
+	ex.finds = map[string]Finding{}
+	defer func() { ex.finds = saveFinds }()
+	memo := map[string]string{}
+	beh := func(set []Config) string {
+		var ks []string
+		for _, c := range set {
+			c.D, c.E, c.Trunc, c.Phase = 0, 0, false, 0
+			ks = append(ks, fmt.Sprintf("%v", c))
+		}
+		sort.Strings(ks)
+		k := strings.Join(ks, "#")
+		if v, ok := memo[k]; ok {
+			return v
+		}
+		for i := range set {
+			set[i].Phase = 0
+		}
+		v := ex.behaviour(set, lookahead, 0)
+		memo[k] = v
+		return v
+	}
+	names := func(evs []string) string {
+		var o []string
+		for _, e := range evs {
+			if i := strings.LastIndexByte(e, '@'); i > 0 {
+				e = e[:i]
+			}
+			o = append(o, e)
+		}
+		return strings.Join(o, " ")
+	}
+	seenKey := map[string]bool{}
+	for id, c := range ex.order {
+		if len(c.Replay) > 0 {
+			continue
+		}
+		key := fmt.Sprintf("%s|%s|%s", c.St, c.Stack, c.Open)
+		if seenKey[key] {
+			continue
+		}
+		seenKey[key] = true
+		var opened []Config
+		for _, s := range ex.apply(c, id, c.St, int(ex.rep['(']), 0, 0) {
+			for _, e := range s.evs {
+				if strings.HasPrefix(e, "ContextOpen@") {
+					opened = append(opened, s.c)
+					break
+				}
+			}
+		}
+		if len(opened) == 0 {
+			continue
+		}
+		compared++
+		after := func(from []Config) string {
+			m := map[string][]Config{}
+			for _, f := range from {
+				for _, s := range ex.apply(f, id, f.St, '\n', 0, 0) {
+					k := names(s.evs)
+					m[k] = append(m[k], s.c)
+				}
+			}
+			var ks []string
+			for k, set := range m {
+				ks = append(ks, "{"+k+"}=>"+beh(set))
+			}
+			sort.Strings(ks)
+			return strings.Join(ks, " || ")
+		}
+		p, e := after([]Config{c}), after(opened)
+		if p != e {
+			out = append(out, OpenDivergence{State: c.St, Stack: c.Stack, Plain: p, Explicit: e, Trace: ex.trace(id)})
+		}
+	}
+	return out, compared
+}
